@@ -28,6 +28,77 @@ theorem Inv.fresh_not_cell {s : St} {h : Term} {ps : List Cell} (inv : Inv s h p
 theorem Inv.fresh_no_triple {s : St} {h : Term} {ps : List Cell} (inv : Inv s h ps) (p o : Term) :
     (s.fresh, p, o) ∉ s.g := fun hm => Nat.lt_irrefl _ (inv.fresh.subj_lt _ hm)
 
+/-! ### the frame: statements that are not rdf:first / rdf:rest triples -/
+
+def NonList (t : Triple) : Prop := t.2.1 ≠ FIRST ∧ t.2.1 ≠ REST
+
+/-- Triples other than rdf:first/rdf:rest statements are never added; one is removed only together
+    with a discarded cell: its subject is not the head and carried an rdf:first. -/
+def Frame (g g' : Graph) (h : Term) : Prop :=
+  ∀ t, NonList t → (t ∈ g' → t ∈ g) ∧ (t ∈ g → t ∈ g' ∨ (t.1 ≠ h ∧ ∃ o, (t.1, FIRST, o) ∈ g))
+
+theorem frame_of_iff {g g' : Graph} {h : Term} (hi : ∀ t, NonList t → (t ∈ g' ↔ t ∈ g)) : Frame g g' h :=
+  fun t hn => ⟨(hi t hn).1, fun hm => Or.inl ((hi t hn).2 hm)⟩
+
+theorem frame_of_cell {g g' : Graph} {h c x : Term} (hc : c ≠ h) (hx : (c, FIRST, x) ∈ g)
+    (hi : ∀ t, NonList t → (t ∈ g' ↔ t ∈ g ∧ t.1 ≠ c)) : Frame g g' h := by
+  intro t hn
+  refine ⟨fun hm => ((hi t hn).1 hm).1, fun hm => ?_⟩
+  by_cases e : t.1 = c
+  · exact Or.inr ⟨e ▸ hc, x, e ▸ hx⟩
+  · exact Or.inl ((hi t hn).2 ⟨hm, e⟩)
+
+theorem frame_refl (g : Graph) (h : Term) : Frame g g h := frame_of_iff (fun _ _ => Iff.rfl)
+
+theorem frame_trans {g1 g2 g3 : Graph} {h : Term} (a : Frame g1 g2 h) (hi : ∀ t, NonList t → (t ∈ g3 ↔ t ∈ g2)) :
+    Frame g1 g3 h := by
+  intro t hn
+  refine ⟨fun hm => (a t hn).1 ((hi t hn).1 hm), fun hm => ?_⟩
+  rcases (a t hn).2 hm with h1 | h1
+  · exact Or.inl ((hi t hn).2 h1)
+  · exact Or.inr h1
+
+theorem nonlist_gset {g : Graph} {s p o : Term} {t : Triple} (hn : NonList t) (hp : p = FIRST ∨ p = REST) :
+    t ∈ gset g s p o ↔ t ∈ g := by
+  obtain ⟨s', p', o'⟩ := t
+  simp only [NonList] at hn
+  rw [mem_gset]
+  constructor
+  · rintro (e | ⟨hm, _⟩)
+    · simp only [Prod.mk.injEq] at e
+      rcases hp with hp | hp
+      · exact absurd (e.2.1.trans hp) hn.1
+      · exact absurd (e.2.1.trans hp) hn.2
+    · exact hm
+  · intro hm
+    refine Or.inr ⟨hm, fun e => ?_⟩
+    rcases hp with hp | hp
+    · exact hn.1 (e.2.trans hp)
+    · exact hn.2 (e.2.trans hp)
+
+theorem nonlist_add {g : Graph} {u t : Triple} (hn : NonList t) (hp : u.2.1 = FIRST ∨ u.2.1 = REST) :
+    t ∈ add g u ↔ t ∈ g := by
+  rw [mem_add]
+  constructor
+  · rintro (e | hm)
+    · subst e
+      rcases hp with hp | hp
+      · exact absurd hp hn.1
+      · exact absurd hp hn.2
+    · exact hm
+  · exact Or.inr
+
+theorem nonlist_removeSP {g : Graph} {s p : Term} {t : Triple} (hn : NonList t) (hp : p = FIRST ∨ p = REST) :
+    t ∈ removeSP g s p ↔ t ∈ g := by
+  rw [mem_removeSP]
+  constructor
+  · exact fun hm => hm.1
+  · intro hm
+    refine ⟨hm, fun e => ?_⟩
+    rcases hp with hp | hp
+    · exact hn.1 (e.2.trans hp)
+    · exact hn.2 (e.2.trans hp)
+
 /-! ### list surgery -/
 
 theorem split_at {α : Type} {ps : List α} {k : Nat} (hk : k < ps.length) :
@@ -73,7 +144,7 @@ theorem Inv.container_at {s : St} {h : Term} {pre post : List Cell} {q : Cell}
 theorem Inv.setItem_ok {s : St} {h : Term} {ps : List Cell} (inv : Inv s h ps) {key : Int} {k : Nat} (v : Term)
     (hk : normK ps.length key = some k) (hlt : k < ps.length) :
     ∃ g' ps', setItem s.g h key v = .ok g' ∧ ps'.map Prod.snd = (ps.map Prod.snd).set k v ∧
-      Inv ⟨g', s.fresh⟩ h ps' := by
+      Frame s.g g' h ∧ Inv ⟨g', s.fresh⟩ h ps' := by
   obtain ⟨pre, post, hps, hlen⟩ := split_at hlt
   rcases hq : ps[k] with ⟨c, x⟩
   rw [hq] at hps
@@ -81,7 +152,8 @@ theorem Inv.setItem_ok {s : St} {h : Term} {ps : List Cell} (inv : Inv s h ps) {
   have inv' : Inv s h (pre ++ (c, x) :: post) := hps ▸ inv
   have hcont := inv'.container_at 0
   simp only [Nat.add_zero, Nat.zero_le, if_true, List.drop_zero, hdN] at hcont
-  refine ⟨gset s.g c FIRST v, pre ++ (c, v) :: post, ?_, ?_, ?_, nodup_gset inv.nodup, ?_⟩
+  refine ⟨gset s.g c FIRST v, pre ++ (c, v) :: post, ?_, ?_,
+    frame_of_iff (fun t hn => nonlist_gset hn (Or.inl rfl)), ?_, nodup_gset inv.nodup, ?_⟩
   · unfold RV.C19.setItem
     rw [inv.chain.normIdx, hk]
     simp only [hcont]
@@ -123,7 +195,7 @@ theorem freshOK_of_subset {s : St} {h : Term} {g' : Graph} (f : FreshOK s h)
 theorem Inv.delItem_head {s : St} {h : Term} {ps : List Cell} (inv : Inv s h ps) {key : Int}
     (hk : normK ps.length key = some 0) (hlt : 0 < ps.length) :
     ∃ g' ps', delItem s.g h key = .ok g' ∧ ps'.map Prod.snd = (ps.map Prod.snd).eraseIdx 0 ∧
-      Inv ⟨g', s.fresh⟩ h ps' := by
+      Frame s.g g' h ∧ Inv ⟨g', s.fresh⟩ h ps' := by
   have hFR : FIRST ≠ REST := by decide
   cases ps with
   | nil => simp at hlt
@@ -140,7 +212,9 @@ theorem Inv.delItem_head {s : St} {h : Term} {ps : List Cell} (inv : Inv s h ps)
     have hc0' : getContainer s.g (some c0) 0 = some c0 := rfl
     cases rest with
     | nil =>
-      refine ⟨removeSP (removeSP s.g c0 FIRST) c0 REST, [], ?_, by simp, ?_, ?_, ?_⟩
+      refine ⟨removeSP (removeSP s.g c0 FIRST) c0 REST, [], ?_, by simp,
+        frame_of_iff (fun t hn => by
+          rw [nonlist_removeSP hn (Or.inr rfl), nonlist_removeSP hn (Or.inl rfl)]), ?_, ?_, ?_⟩
       · unfold RV.C19.delItem
         rw [inv.chain.normIdx, hk]
         simp only [hgetAt, hc0', hlen, hc1, hdN]
@@ -170,7 +244,9 @@ theorem Inv.delItem_head {s : St} {h : Term} {ps : List Cell} (inv : Inv s h ps)
         have := hcells.2.2.2.2.2.1 o
         rw [hd_some_nil] at this
         simp [hne, hFR, hFR.symm, this, eq_comm]
-      refine ⟨removeS (gset (gset s.g c0 FIRST xn) c0 REST (hdN rest)) nx, (c0, xn) :: rest, ?_, by simp, ?_, ?_, ?_⟩
+      refine ⟨removeS (gset (gset s.g c0 FIRST xn) c0 REST (hdN rest)) nx, (c0, xn) :: rest, ?_, by simp,
+        frame_of_cell hne ((hcells.2.2.2.2.1 xn).2 rfl) (fun t hn => by
+          rw [mem_removeS, nonlist_gset hn (Or.inr rfl), nonlist_gset hn (Or.inl rfl)]), ?_, ?_, ?_⟩
       · unfold RV.C19.delItem
         rw [inv.chain.normIdx, hk]
         simp only [hgetAt, hc0', hlen, hc1, hdN, hnxnil, hv1, hv2]
@@ -203,7 +279,7 @@ theorem Inv.delItem_head {s : St} {h : Term} {ps : List Cell} (inv : Inv s h ps)
 theorem Inv.delItem_inner {s : St} {h : Term} {ps : List Cell} (inv : Inv s h ps) {key : Int} {j : Nat}
     (hk : normK ps.length key = some (j + 1)) (hlt : j + 1 < ps.length) :
     ∃ g' ps', delItem s.g h key = .ok g' ∧ ps'.map Prod.snd = (ps.map Prod.snd).eraseIdx (j + 1) ∧
-      Inv ⟨g', s.fresh⟩ h ps' := by
+      Frame s.g g' h ∧ Inv ⟨g', s.fresh⟩ h ps' := by
   have hFR : FIRST ≠ REST := by decide
   obtain ⟨pre, post, hps, hlen⟩ := split_at (Nat.lt_of_succ_lt hlt)
   rcases hq : ps[j]'(Nat.lt_of_succ_lt hlt) with ⟨p, xp⟩
@@ -243,9 +319,27 @@ theorem Inv.delItem_inner {s : St} {h : Term} {ps : List Cell} (inv : Inv s h ps
       rcases hsub t ht with e | hm
       · subst e; exact Or.inr (inv'.cell_lt (by simp))
       · exact Or.inl hm
+    have hch : c ≠ h := by
+      intro e
+      have hhd := inv'.chain.hdN_eq (by simp)
+      have hnd' := inv'.chain.nodup
+      cases pre with
+      | nil =>
+        simp only [List.nil_append, hdN] at hhd
+        exact hpc (hhd.trans e.symm)
+      | cons q0 pre0 =>
+        obtain ⟨c0', x0'⟩ := q0
+        simp only [List.cons_append, hdN] at hhd
+        simp only [List.cons_append, List.map_cons, List.map_append, List.nodup_cons, List.mem_append,
+          List.mem_cons, not_or] at hnd'
+        exact hnd'.1.2.2.1 (hhd.trans e.symm)
+    have hcx : (c, FIRST, x) ∈ s.g := by
+      have := (cells_append.mp inv'.chain.cells).2
+      exact (this.2.2.2.2.1 x).2 rfl
     by_cases hrest : rest = []
     · subst hrest
-      refine ⟨removeS (gset s.g p REST NIL) c, pre ++ [(p, xp)], ?_, hsnd, ?_, ?_, ?_⟩
+      refine ⟨removeS (gset s.g p REST NIL) c, pre ++ [(p, xp)], ?_, hsnd,
+        frame_of_cell hch hcx (fun t hn => by rw [mem_removeS, nonlist_gset hn (Or.inr rfl)]), ?_, ?_, ?_⟩
       · unfold RV.C19.delItem
         rw [inv.chain.normIdx, hk]
         simp only [hgetAt, hc1, hlen', Nat.add_sub_cancel, hc0]
@@ -271,7 +365,8 @@ theorem Inv.delItem_inner {s : St} {h : Term} {ps : List Cell} (inv : Inv s h ps
         have : 0 < rest.length := List.length_pos_iff.mpr hrest
         simp only [List.length_append, List.length_cons]
         omega
-      refine ⟨gset (removeS s.g c) p REST (hdN rest), pre ++ (p, xp) :: rest, ?_, hsnd, ?_, ?_, ?_⟩
+      refine ⟨gset (removeS s.g c) p REST (hdN rest), pre ++ (p, xp) :: rest, ?_, hsnd,
+        frame_of_cell hch hcx (fun t hn => by rw [nonlist_gset hn (Or.inr rfl), mem_removeS]), ?_, ?_, ?_⟩
       · unfold RV.C19.delItem
         rw [inv.chain.normIdx, hk]
         simp only [hgetAt, hc1, hlen', Nat.add_sub_cancel, hc0, hc2, hnot]
@@ -320,13 +415,17 @@ theorem cells_last_ne_nil {g : Graph} {tl : Option Term} {pre : List Cell} {e x 
     (hc : Cells g tl (pre ++ [(e, x)])) : e ≠ NIL := (cells_append.mp hc).2.1
 
 theorem Inv.append {s : St} {h : Term} {ps : List Cell} (inv : Inv s h ps) (item : Term) :
-    ∃ s' ps', append s h item = .ok s' ∧ ps'.map Prod.snd = ps.map Prod.snd ++ [item] ∧ Inv s' h ps' := by
+    ∃ s' ps', append s h item = .ok s' ∧ ps'.map Prod.snd = ps.map Prod.snd ++ [item] ∧
+      Frame s.g s'.g h ∧ Inv s' h ps' := by
   rcases nil_or_snoc ps with hps | ⟨pre, e, x, hps⟩
   · subst hps
     have hend := inv.chain.endOf_nil
     have hno : hasSP s.g h FIRST = false :=
       hasSP_false_iff.mpr (fun _ => inv.chain.empty_no_triple (Or.inl rfl))
-    refine ⟨⟨add (add s.g (h, FIRST, item)) (h, REST, NIL), s.fresh⟩, [(h, item)], ?_, by simp, ?_, ?_, ?_⟩
+    refine ⟨⟨add (add s.g (h, FIRST, item)) (h, REST, NIL), s.fresh⟩, [(h, item)], ?_, by simp,
+      frame_of_iff (fun t hn => by
+        show t ∈ add (add s.g (h, FIRST, item)) (h, REST, NIL) ↔ _
+        rw [nonlist_add hn (Or.inr rfl), nonlist_add hn (Or.inl rfl)]), ?_, ?_, ?_⟩
     · simp [RV.C19.append, hend, inv.chain.hne, hno]
     · apply chain_first inv.chain
       intro t
@@ -354,7 +453,11 @@ theorem Inv.append {s : St} {h : Term} {ps : List Cell} (inv : Inv s h ps) (item
     have hyes : hasSP s.g e FIRST = true := hasSP_iff.mpr ⟨x, (hcells.2.2.1 x).2 rfl⟩
     have he_lt : e < s.fresh := inv.cell_lt (by simp)
     refine ⟨⟨add (add (gset s.g e REST s.fresh) (s.fresh, FIRST, item)) (s.fresh, REST, NIL), s.fresh + 1⟩,
-      pre ++ [(e, x), (s.fresh, item)], ?_, by simp, ?_, ?_, ?_, ?_, ?_⟩
+      pre ++ [(e, x), (s.fresh, item)], ?_, by simp,
+      frame_of_iff (fun t hn => by
+        show t ∈ add (add (gset s.g e REST s.fresh) (s.fresh, FIRST, item)) (s.fresh, REST, NIL) ↔ _
+        rw [nonlist_add hn (Or.inr rfl), nonlist_add hn (Or.inl rfl), nonlist_gset hn (Or.inr rfl)]),
+      ?_, ?_, ?_, ?_, ?_⟩
     · simp [RV.C19.append, hend, hne, hyes]
     · apply chain_snoc inv.chain (Nat.ne_of_gt inv.fresh.nil_lt) (fun p o => inv.fresh_no_triple p o)
         inv.fresh_not_cell
@@ -395,12 +498,13 @@ structure OInv (g : Graph) (fr : Nat) (h e : Term) (ps : List Cell) : Prop where
 theorem iaddLoop_inv {h : Term} :
     ∀ (xs : List Term) (g : Graph) (fr : Nat) (e : Term) (ps : List Cell), OInv g fr h e ps →
       ∃ ps', ps'.map Prod.snd = ps.map Prod.snd ++ xs ∧
+        (∀ t, NonList t → (t ∈ (iaddLoop g fr e xs).1 ↔ t ∈ g)) ∧
         OInv (iaddLoop g fr e xs).1 (iaddLoop g fr e xs).2.1 h (iaddLoop g fr e xs).2.2 ps' := by
   intro xs
   induction xs with
   | nil =>
     intro g fr e ps o
-    exact ⟨ps, by simp, o⟩
+    exact ⟨ps, by simp, fun _ _ => Iff.rfl, o⟩
   | cons x xs ih =>
     intro g fr e ps o
     rcases o.last with ⟨hps, he⟩ | ⟨pre, y, hps⟩
@@ -418,10 +522,13 @@ theorem iaddLoop_inv {h : Term} :
           rcases mem_add.mp ht with e1 | hm
           · subst e1; exact o.fresh.h_lt
           · exact o.fresh.subj_lt t hm
-      obtain ⟨ps', h1, h2⟩ := ih _ _ _ _ o1
-      refine ⟨ps', by simpa using h1, ?_⟩
-      simp only [iaddLoop, hno]
-      exact h2
+      obtain ⟨ps', h1, hfr, h2⟩ := ih _ _ _ _ o1
+      refine ⟨ps', by simpa using h1, ?_, ?_⟩
+      · intro t hn
+        simp only [iaddLoop, hno, Bool.false_eq_true, if_false]
+        rw [hfr t hn, nonlist_add hn (Or.inl rfl)]
+      · simp only [iaddLoop, hno]
+        exact h2
     · subst hps
       have hcells := cells_append.mp o.chain.cells
       have hyes : hasSP g e FIRST = true := hasSP_iff.mpr ⟨y, (hcells.2.2.1 y).2 rfl⟩
@@ -465,13 +572,17 @@ theorem iaddLoop_inv {h : Term} :
           · subst e1; exact Nat.lt_succ_self _
           · subst e1; exact Nat.lt_succ_of_lt he_lt
           · exact Nat.lt_succ_of_lt (o.fresh.subj_lt t hm)
-      obtain ⟨ps', h1, h2⟩ := ih _ _ _ _ o1
-      refine ⟨ps', by simpa using h1, ?_⟩
-      simp only [iaddLoop, hyes, if_true]
-      exact h2
+      obtain ⟨ps', h1, hfr, h2⟩ := ih _ _ _ _ o1
+      refine ⟨ps', by simpa using h1, ?_, ?_⟩
+      · intro t hn
+        simp only [iaddLoop, hyes, if_true]
+        rw [hfr t hn, nonlist_add hn (Or.inl rfl), nonlist_add hn (Or.inr rfl)]
+      · simp only [iaddLoop, hyes, if_true]
+        exact h2
 
 theorem Inv.iadd {s : St} {h : Term} {ps : List Cell} (inv : Inv s h ps) (xs : List Term) :
-    ∃ s' ps', iadd s h xs = .ok s' ∧ ps'.map Prod.snd = ps.map Prod.snd ++ xs ∧ Inv s' h ps' := by
+    ∃ s' ps', iadd s h xs = .ok s' ∧ ps'.map Prod.snd = ps.map Prod.snd ++ xs ∧
+      Frame s.g s'.g h ∧ Inv s' h ps' := by
   -- the end cell and the opened chain
   have hopen : ∃ e, endOf s.g h = .ok e ∧ e ≠ NIL ∧ OInv (removeSP s.g e REST) s.fresh h e ps := by
     rcases nil_or_snoc ps with hps | ⟨pre, e, x, hps⟩
@@ -491,10 +602,12 @@ theorem Inv.iadd {s : St} {h : Term} {ps : List Cell} (inv : Inv s h ps) (xs : L
       · exact chain_open inv.chain (fun t => by simp)
       · exact freshOK_of_subset inv.fresh (fun t ht => Or.inl (mem_removeSP.mp ht).1)
   obtain ⟨e, hend, hne, o⟩ := hopen
-  obtain ⟨ps', h1, o'⟩ := iaddLoop_inv xs _ _ _ _ o
-  generalize hr : iaddLoop (removeSP s.g e REST) s.fresh e xs = r at o'
+  obtain ⟨ps', h1, hfr, o'⟩ := iaddLoop_inv xs _ _ _ _ o
+  generalize hr : iaddLoop (removeSP s.g e REST) s.fresh e xs = r at o' hfr
   obtain ⟨g1, fr1, e1⟩ := r
-  simp only at o'
+  simp only at o' hfr
+  have hfr1 : ∀ t, NonList t → (t ∈ g1 ↔ t ∈ s.g) := fun t hn => by
+    rw [hfr t hn, nonlist_removeSP hn (Or.inr rfl)]
   have hiadd : RV.C19.iadd s h xs = .ok ⟨if hasSP g1 e1 FIRST then add g1 (e1, REST, NIL) else g1, fr1⟩ := by
     simp [RV.C19.iadd, hend, hne, hr]
   refine ⟨_, ps', hiadd, h1, ?_⟩
@@ -504,12 +617,13 @@ theorem Inv.iadd {s : St} {h : Term} {ps : List Cell} (inv : Inv s h ps) (xs : L
     have hno : hasSP g1 e1 FIRST = false :=
       hasSP_false_iff.mpr (fun _ => o'.chain.empty_no_triple (Or.inl rfl))
     simp only [hno]
-    exact ⟨chain_nil_tl o'.chain, o'.nodup, o'.fresh⟩
+    exact ⟨frame_of_iff hfr1, chain_nil_tl o'.chain, o'.nodup, o'.fresh⟩
   · subst hps
     have hcells := cells_append.mp o'.chain.cells
     have hyes : hasSP g1 e1 FIRST = true := hasSP_iff.mpr ⟨y, (hcells.2.2.1 y).2 rfl⟩
     simp only [hyes, if_true]
-    refine ⟨chain_close o'.chain (fun t => by simp), nodup_add o'.nodup, o'.fresh.h_lt, o'.fresh.nil_lt, ?_⟩
+    refine ⟨frame_of_iff (fun t hn => by rw [nonlist_add hn (Or.inr rfl), hfr1 t hn]),
+      chain_close o'.chain (fun t => by simp), nodup_add o'.nodup, o'.fresh.h_lt, o'.fresh.nil_lt, ?_⟩
     intro t ht
     rcases mem_add.mp ht with e2 | hm
     · subst e2
